@@ -82,7 +82,11 @@ def generate(rng, tier, index):
         ops = [{'op': 'solve', 'T': 100.0, 'it': 'euler', 'minf': 2e-2, 'maxf': 1.0}, {'op': 'solve', 'T': 1000.0, 'it': rng.choice(['euler', 'rk4']), 'minf': 2e-2, 'maxf': 1.0}]
         return {'kind': 'phases', 'cfg': cfg, 'ops': ops, 'cap': 100}
     nph = rng.choice([2, 2, 3])
-    cfg = W.gen_stub_config(rng, nel=2, nphase=nph)
+    # binary (lookup-table branch of the growth rate) and ternary (curvature-factor branch) worlds
+    cfg = W.gen_stub_config(rng, nel=rng.choice([2, 2, 1]), nphase=nph)
+    if len(cfg['elements']) == 1:
+        # a small grid, so that a phase that is not listed first outgrows it and classes are appended within the run
+        cfg['pbm'].update({'cMax': 2e-9, 'bins': 30, 'minBins': 20, 'maxBins': 200})
     # every step-size constraint enabled, volume-change limit tight enough to bind
     cfg['constraints'] = {'maxVolumeChange': rng.choice([1e-3, 1e-4, 2e-5, 5e-6])}
     if rng.random() < 0.3:
